@@ -137,6 +137,10 @@ func (c *context) SendMsg(m *protocol.Message) error {
 	oldsurv := c.surv
 	newsurv.start(c.recvQLen, c.survExpire)
 	if oldsurv != nil {
+		// Unregister the abandoned survey now, under the lock, so that
+		// no response to it can be accepted once this call has returned
+		// (cancel runs asynchronously).
+		delete(s.surveys, oldsurv.id)
 		go oldsurv.cancel(protocol.ErrCanceled)
 	}
 	pipes := make([]*pipe, 0, len(s.pipes))
